@@ -43,6 +43,35 @@ def setid_case(task):
     return out
 
 
+def no_final_newline_case(task):
+    """.pc/applied-patches whose last line has no end (edited by hand): the names of this push still come one per line"""
+    import os
+    import rawcases as rc
+    import ws
+    import wsweep
+    prior, threads, goal = task
+    root = os.path.join(wsweep.wdir(), 'ws')
+    files = {'f': (rc.lines(b'f'), 0o644)}
+    names = ['p0.patch', 'p1.patch', 'p2.patch']
+    patches = {n: rc.mod(b'f', b'f', 2 * i, b'F%d' % i) for i, n in enumerate(names)}
+    ws.make_ws(root, files, patches, names)
+    ws.run_rq(root, [str(prior), '-q', '--backup', 'never'], threads=1)
+    ap = os.path.join(root, '.pc', 'applied-patches')
+    data = open(ap, 'rb').read()
+    open(ap, 'wb').write(data.rstrip(b'\n'))
+    o = ws.run_rq(root, [goal, '-q', '--backup', 'never'], threads=threads)
+    got = open(ap, 'rb').read()
+    k = len(names) if goal == '-a' else min(len(names), prior + int(goal))
+    want = b''.join(n.encode() + b'\n' for n in names[:k])
+    out = {'evals': 1, 'nontrivial': 1, 'violations': [], 'outcomes': {'no-final-newline:exit-' + o.cls: 1}}
+    if o.cls != '0' or got != want:
+        out['violations'].append((wsweep.cls({'applied-patches-without-final-newline', 'threads>1' if threads > 1 else 'threads=1'}), 'applied-patches' if o.cls == '0' else 'exit-' + o.cls,
+                                  {'kind': 'cli', 'files': {k_: [common.b2s(v[0]), v[1]] for k_, v in files.items()}, 'patches': {k_: common.b2s(v) for k_, v in patches.items()}, 'series': names,
+                                   'applied_raw': common.b2s(data.rstrip(b'\n')), 'args': [goal, '-q', '--backup', 'never'], 'threads': threads,
+                                   'series_desc': '%d patches applied, applied-patches without final newline, then push %s' % (prior, goal), 'expected': common.b2s(want), 'observed': common.b2s(got)}))
+    return out
+
+
 def run(tier, seed):
     res = common.Result('model_checking')
     m0 = tq.initial()
@@ -70,6 +99,10 @@ def run(tier, seed):
     wsprops.sweep('C08', res, m0, [s for s in multi if len(s) >= 2], pc, 'sweep_with_prior_state')
     import shutil
     import wsweep
+    accn = wsweep.Acc(res)
+    for r in wsweep.pmap(no_final_newline_case, [(prior, t, goal) for prior in (1, 2) for t in (1, 2) for goal in ('1', '-a')]):
+        accn.add(r)
+    accn.finish('applied_patches_without_final_newline')
     if shutil.which('setpriv'):
         acc = wsweep.Acc(res)
         for r in wsweep.pmap(setid_case, [(m, t, b, fb) for m in (0o4755, 0o2755, 0o6750, 0o755) for t in (1, 2) for b in ('always', 'never') for fb in (False, True)]):
